@@ -860,7 +860,52 @@ def minimise(plan, violation, deadline):
         o2["oracle"] = [x for x in o2["oracle"] if x.get("relation") in
                         ("same", "alone")]
       small["ops"][k] = o2
+  pruned = _prune_pool(small)
+  if pruned is not small and time.time() < deadline + 60 and \
+      test(pruned["ops"]) is not None:
+    try:
+      _, viols, _ = execute(pruned)
+      if any(v["key"] == violation["key"] and
+             v["property"] == violation["property"] for v in viols):
+        return pruned
+    except core.HarnessError:
+      pass
   return small
+
+
+def _prune_pool(plan):
+  """Drops pool members no remaining op refers to (indices are remapped)."""
+  used = set()
+  for op in plan["ops"]:
+    if op["op"] == "bad_call":
+      continue
+    used.update(op.get("batch", []))
+    if "idx" in op:
+      used.add(op["idx"])
+    for it in op.get("oracle", []):
+      used.update(it["order"])
+  used.update(int(k) for k in (plan.get("initial_annotations") or {}))
+  if len(used) == len(plan["pool"]) or not used:
+    return plan
+  order = sorted(used)
+  remap = {old: new for new, old in enumerate(order)}
+  p = dict(plan)
+  p["pool"] = [plan["pool"][j] for j in order]
+  p["initial_annotations"] = {str(remap[int(k)]): v for k, v in
+                              (plan.get("initial_annotations") or {}).items()}
+  ops = []
+  for op in plan["ops"]:
+    o = dict(op)
+    if op["op"] != "bad_call" and "batch" in o:
+      o["batch"] = [remap[j] for j in o["batch"]]
+    if "idx" in o:
+      o["idx"] = remap[o["idx"]]
+    if "oracle" in o:
+      o["oracle"] = [dict(it, order=[remap[j] for j in it["order"]])
+                     for it in o["oracle"]]
+    ops.append(o)
+  p["ops"] = ops
+  return p
 
 
 # ----------------------------------------------------------------------------
